@@ -759,7 +759,8 @@ func (a *analysis) prepare(fn *ssa.Function) {
 }
 
 // escaping fresh sites: a local whose address (or a pointer derived from it) is stored, passed to a call,
-// captured, returned or boxed may be written elsewhere; loads from it then also yield "unknown".
+// sent or boxed may be written elsewhere; loads from it then also yield "unknown".  (Returning it does not
+// count: nothing is loaded in this activation after the return.  Capture by a closure is followed exactly.)
 func (a *analysis) computeEscapes(fn *ssa.Function) {
 	esc := a.escaped[fn]
 	if esc == nil {
@@ -783,10 +784,6 @@ func (a *analysis) computeEscapes(fn *ssa.Function) {
 				mark(ins.Val)
 			case *ssa.MakeInterface:
 				mark(ins.X)
-			case *ssa.Return:
-				for _, x := range ins.Results {
-					mark(x)
-				}
 			case *ssa.Send:
 				mark(ins.X)
 			case *ssa.MapUpdate:
@@ -968,6 +965,7 @@ func main() {
 		reachable                      map[*ssa.Function]bool
 		writes, unclassified, callrows []string
 		recvWrites                     []string
+		retShared                      []string
 		greads                         map[*ssa.Global]bool
 		rep                            []string
 	}
@@ -985,6 +983,19 @@ func main() {
 				for gl := range a.greads[f] {
 					g.greads[gl] = true
 				}
+			}
+			// results that alias something shared: a pointer-like result whose memory is not fresh
+			var rr []string
+			for r := range a.ret[fn] {
+				if r.k != kFresh {
+					rr = append(rr, rootStr(fn, r))
+				}
+			}
+			sort.Strings(rr)
+			for _, d := range rr {
+				g.retShared = append(g.retShared, fmt.Sprintf("{| w_entry := %s; w_fn := %s; w_pos := %s; w_kind := %s; w_root := %s; w_chain := %s |}",
+					coqStr(n), coqStr(n), coqStr(rel(fn.Pos())), coqStr("Return"), coqStr(d), coqStr("")))
+				g.rep = append(g.rep, fmt.Sprintf("RESULT-ALIASES %s: a result of %s (%s) points into %s", n, n, rel(fn.Pos()), d))
 			}
 			var keys []condKey
 			for k := range a.cond[fn] {
@@ -1160,6 +1171,7 @@ func main() {
 		w("Definition %scalls : list (string * list string) :=\n  %s.\n", pfx, coqList(rows))
 		w("Definition %sshared_writes : list swrite :=\n  %s.\n", pfx, coqList(g.writes))
 		w("Definition %sunclassified : list swrite :=\n  %s.\n", pfx, coqList(g.unclassified))
+		w("Definition %sresults_shared : list swrite :=\n  %s.\n", pfx, coqList(g.retShared))
 		var inMod, ext []string
 		for _, gv := range globalsOf(g.greads) {
 			if gv.Pkg != nil && (gv.Pkg.Pkg.Path() == modPath || strings.HasPrefix(gv.Pkg.Pkg.Path(), modPath+"/")) {
